@@ -18,25 +18,25 @@ func VerifC13Wrap() {
 	text, n := c13Text()
 	width := verifrt.Int("width", 1, n+2)
 	out := Wrap(text, width)
-	in, o := vParse(text), vParse(out)
-	verifrt.Assert(in.ok && o.ok, "wrap-output-well-formed")
+	in, o := verifrt.Parse(text), verifrt.Parse(out)
+	verifrt.Assert(in.OK && o.OK, "wrap-output-well-formed")
 
 	// 1. every line fits
 	fits := true
-	for _, l := range o.lines {
+	for _, l := range o.Lines {
 		fits = verifrt.All(fits, len(l) <= width)
 	}
 	verifrt.Assert(fits, "wrap-lines-within-width")
 
 	// 2. visible characters, with styling, in order
-	vin, vout := visible(in.flat()), visible(o.flat())
+	vin, vout := verifrt.Visible(in.Flat()), verifrt.Visible(o.Flat())
 	verifrt.Assert(len(vin) == len(vout), "wrap-keeps-every-visible-character")
 	if len(vin) != len(vout) {
 		return
 	}
 	same := true
 	for i := range vin {
-		same = verifrt.All(same, sameCell(vin[i].c, vout[i].c))
+		same = verifrt.All(same, verifrt.SameCell(vin[i].C, vout[i].C))
 	}
 	verifrt.Assert(same, "wrap-keeps-order-and-styling")
 
@@ -44,22 +44,22 @@ func VerifC13Wrap() {
 	// 4. a word is broken only if it is longer than a line
 	for i := 0; i+1 < len(vin); i++ {
 		a, b := vin[i], vin[i+1]
-		if a.line != b.line {
-			verifrt.Assert(vout[i].line != vout[i+1].line, "wrap-keeps-line-breaks")
+		if a.Line != b.Line {
+			verifrt.Assert(vout[i].Line != vout[i+1].Line, "wrap-keeps-line-breaks")
 		}
-		if a.line == b.line && b.col == a.col+1 && vout[i].line != vout[i+1].line {
+		if a.Line == b.Line && b.Col == a.Col+1 && vout[i].Line != vout[i+1].Line {
 			// length of the word containing a and b
 			lo, hi := i, i+1
-			for lo > 0 && vin[lo-1].line == a.line && vin[lo-1].col == vin[lo].col-1 {
+			for lo > 0 && vin[lo-1].Line == a.Line && vin[lo-1].Col == vin[lo].Col-1 {
 				lo--
 			}
-			for hi+1 < len(vin) && vin[hi+1].line == a.line && vin[hi+1].col == vin[hi].col+1 {
+			for hi+1 < len(vin) && vin[hi+1].Line == a.Line && vin[hi+1].Col == vin[hi].Col+1 {
 				hi++
 			}
 			verifrt.Assert(hi-lo+1 > width, "wrap-breaks-only-overlong-words")
 		}
 	}
-	verifrt.Assert(o.neutralAtBreaks(), "wrap-neutral-at-line-ends")
+	verifrt.Assert(o.NeutralAtBreaks(), "wrap-neutral-at-line-ends")
 	verifrt.Observe("out", out)
 	verifrt.Reach("end")
 }
@@ -69,33 +69,33 @@ func VerifC13DumbWrap() {
 	text, n := c13Text()
 	width := verifrt.Int("width", 1, n+2)
 	out := DumbWrap(text, width)
-	in, o := vParse(text), vParse(out)
-	verifrt.Assert(in.ok && o.ok, "dumbwrap-output-well-formed")
+	in, o := verifrt.Parse(text), verifrt.Parse(out)
+	verifrt.Assert(in.OK && o.OK, "dumbwrap-output-well-formed")
 	// walk both: an output line break is either an input line break or
 	// inserted after exactly `width` cells
 	il, ic := 0, 0
 	good := true
-	for ol, line := range o.lines {
+	for ol, line := range o.Lines {
 		good = verifrt.All(good, len(line) <= width)
 		for _, c := range line {
-			if il >= len(in.lines) || ic >= len(in.lines[il]) {
+			if il >= len(in.Lines) || ic >= len(in.Lines[il]) {
 				good = false
 				break
 			}
-			good = verifrt.All(good, sameCell(c, in.lines[il][ic]))
+			good = verifrt.All(good, verifrt.SameCell(c, in.Lines[il][ic]))
 			ic++
 		}
-		if ol == len(o.lines)-1 {
+		if ol == len(o.Lines)-1 {
 			break
 		}
-		if il < len(in.lines) && ic == len(in.lines[il]) && !(len(line) == width && false) {
+		if il < len(in.Lines) && ic == len(in.Lines[il]) && !(len(line) == width && false) {
 			// genuine line break
 			il, ic = il+1, 0
 		} else {
 			good = verifrt.All(good, len(line) == width) // inserted break
 		}
 	}
-	good = good && il == len(in.lines)-1 && ic == len(in.lines[il])
+	good = good && il == len(in.Lines)-1 && ic == len(in.Lines[il])
 	verifrt.Assert(good, "dumbwrap-inserts-breaks-only-at-width-and-keeps-all")
 	verifrt.Observe("out", out)
 	verifrt.Reach("end")
@@ -106,25 +106,25 @@ func VerifC13Pad() {
 	text, n := c13Text()
 	length := verifrt.Int("length", -1, n+2)
 	out := Pad(text, length)
-	in, o := vParse(text), vParse(out)
-	verifrt.Assert(in.ok && o.ok, "pad-output-well-formed")
-	verifrt.Assert(len(in.lines) == len(o.lines), "pad-keeps-line-count")
-	if len(in.lines) != len(o.lines) {
+	in, o := verifrt.Parse(text), verifrt.Parse(out)
+	verifrt.Assert(in.OK && o.OK, "pad-output-well-formed")
+	verifrt.Assert(len(in.Lines) == len(o.Lines), "pad-keeps-line-count")
+	if len(in.Lines) != len(o.Lines) {
 		return
 	}
 	good := true
-	for i, l := range in.lines {
+	for i, l := range in.Lines {
 		want := len(l)
 		if length > want {
 			want = length
 		}
-		ol := o.lines[i]
+		ol := o.Lines[i]
 		good = verifrt.All(good, len(ol) == want)
 		for k := 0; k < len(ol) && k < want; k++ {
 			if k < len(l) {
-				good = verifrt.All(good, sameCell(ol[k], l[k]))
+				good = verifrt.All(good, verifrt.SameCell(ol[k], l[k]))
 			} else {
-				good = verifrt.All(good, ol[k].r == ' ', ol[k].attrs == "")
+				good = verifrt.All(good, ol[k].R == ' ', ol[k].Attrs == "")
 			}
 		}
 	}
@@ -141,23 +141,23 @@ func VerifC13Indent() {
 	prefix := vPrefixes[verifrt.Choice("prefix", len(vPrefixes))]
 	first := verifrt.Choice("first", 2) == 1
 	out := Indent(text, prefix, first)
-	in, o, p := vParse(text), vParse(out), vParse(prefix)
-	verifrt.Assert(in.ok && o.ok, "indent-output-well-formed")
-	verifrt.Assert(len(in.lines) == len(o.lines), "indent-keeps-line-count")
-	if len(in.lines) != len(o.lines) {
+	in, o, p := verifrt.Parse(text), verifrt.Parse(out), verifrt.Parse(prefix)
+	verifrt.Assert(in.OK && o.OK, "indent-output-well-formed")
+	verifrt.Assert(len(in.Lines) == len(o.Lines), "indent-keeps-line-count")
+	if len(in.Lines) != len(o.Lines) {
 		return
 	}
 	good := true
-	for i, l := range in.lines {
-		var want []vCell
+	for i, l := range in.Lines {
+		var want []verifrt.Cell
 		if i > 0 || first {
-			want = append(want, p.lines[0]...)
+			want = append(want, p.Lines[0]...)
 		}
 		want = append(want, l...)
-		ol := o.lines[i]
+		ol := o.Lines[i]
 		good = verifrt.All(good, len(ol) == len(want))
 		for k := 0; k < len(ol) && k < len(want); k++ {
-			good = verifrt.All(good, sameCell(ol[k], want[k]))
+			good = verifrt.All(good, verifrt.SameCell(ol[k], want[k]))
 		}
 	}
 	verifrt.Assert(good, "indent-line-is-prefix-plus-line")
@@ -170,48 +170,48 @@ func VerifC13Snip() {
 	text, n := c13Text()
 	width := verifrt.Int("width", 1, n+2)
 	height := verifrt.Int("height", 1, 4)
-	in := vParse(text)
-	for _, l := range in.lines {
+	in := verifrt.Parse(text)
+	for _, l := range in.Lines {
 		verifrt.Assume(len(l) <= width) // Snip's documented precondition: input already wrapped
 	}
 	const ell = "…"
 	out := Snip(text, width, height, ell)
-	o := vParse(out)
-	verifrt.Assert(in.ok && o.ok, "snip-output-well-formed")
-	verifrt.Assert(len(o.lines) <= height, "snip-at-most-height-lines")
+	o := verifrt.Parse(out)
+	verifrt.Assert(in.OK && o.OK, "snip-output-well-formed")
+	verifrt.Assert(len(o.Lines) <= height, "snip-at-most-height-lines")
 	fits := true
-	for _, l := range o.lines {
+	for _, l := range o.Lines {
 		fits = verifrt.All(fits, len(l) <= width)
 	}
 	verifrt.Assert(fits, "snip-lines-within-width")
 	// output minus a trailing ellipsis is a prefix of the input cells, up to
 	// dropped trailing whitespace-only lines and one dropped cell
-	fo := o.flat()
-	hasEll := len(fo) > 0 && fo[len(fo)-1].c.r == '…' && fo[len(fo)-1].c.attrs == ""
+	fo := o.Flat()
+	hasEll := len(fo) > 0 && fo[len(fo)-1].C.R == '…' && fo[len(fo)-1].C.Attrs == ""
 	body := fo
 	if hasEll {
 		body = fo[:len(fo)-1]
 	}
-	fi := in.flat()
+	fi := in.Flat()
 	good := len(body) <= len(fi)
 	for k := 0; k < len(body) && k < len(fi); k++ {
-		good = verifrt.All(good, sameCell(body[k].c, fi[k].c), body[k].line == fi[k].line)
+		good = verifrt.All(good, verifrt.SameCell(body[k].C, fi[k].C), body[k].Line == fi[k].Line)
 	}
 	verifrt.Assert(good, "snip-is-prefix-of-input")
 	if !hasEll {
 		// nothing was cut: everything must still be there
-		verifrt.Assert(len(body) == len(fi) && len(o.lines) == len(in.lines), "snip-without-ellipsis-is-identity")
+		verifrt.Assert(len(body) == len(fi) && len(o.Lines) == len(in.Lines), "snip-without-ellipsis-is-identity")
 	} else {
 		// what was dropped after the kept prefix: at most one cell on the
 		// last kept line, the rest of the dropped material is on later lines
 		// or is whitespace-only
 		lastLine := 0
 		if len(body) > 0 {
-			lastLine = body[len(body)-1].line
+			lastLine = body[len(body)-1].Line
 		}
 		dropped := 0
 		for k := len(body); k < len(fi); k++ {
-			if fi[k].line == lastLine && !unicode.IsSpace(fi[k].c.r) {
+			if fi[k].Line == lastLine && !unicode.IsSpace(fi[k].C.R) {
 				dropped++
 			}
 		}
